@@ -157,6 +157,65 @@ def _pca_records(ctx, rng, count, rid0, d=None):
     return recs, discarded
 
 
+def _pca_long_records(ctx, rng, count, rid0):
+    """Requests of 2000..7000 waveforms from the diagonal family (each +/- pair repeated): the principal axes
+    are those of ALL requested waveforms. The copies are laid out at random, or so that every 2nd / 3rd
+    waveform misses the axis of largest variance; the record holds the distinct waveforms with multiplicities."""
+    from phylib.io.model import compute_features
+    recs = []
+    for j in range(count):
+        nsw = int(rng.randint(3, 6))
+        nc = int(rng.randint(1, 3))
+        reps = [int(x) for x in rng.randint(340, 700, size=nsw)]
+        mags = np.array([rng.permutation(np.arange(1, 12))[:nsw] for _ in range(nc)]).T        # (nsw, nc)
+        var = [[2 * reps[k] * int(mags[k, c]) ** 2 for k in range(nsw)] for c in range(nc)]
+        if any(len(set(v)) < nsw for v in var):
+            continue                                        # a tie between axes: the order would be free
+        big = int(np.argmax(var[0]))                        # axis of largest variance on channel 0
+        dist = np.zeros((2 * nsw, nsw, nc))
+        for k in range(nsw):
+            dist[2 * k, k, :] = mags[k]
+            dist[2 * k + 1, k, :] = -mags[k]
+        cnt = [reps[k // 2] for k in range(2 * nsw)]
+        idx = np.repeat(np.arange(2 * nsw), cnt)
+        layout = j % 3
+        if layout == 0:
+            idx = idx[rng.permutation(len(idx))]
+        else:
+            # the copies on the largest axis only at positions that are NOT multiples of the stride
+            stride = layout + 1
+            bigs = idx[idx // 2 == big]
+            rest = idx[idx // 2 != big][rng.permutation(int(np.sum(idx // 2 != big)))]
+            out, b, r = [], list(bigs), list(rest)
+            pos = 0
+            while b or r:
+                if pos % stride != 0 and b:
+                    out.append(b.pop())
+                elif r:
+                    out.append(r.pop())
+                else:
+                    out.append(b.pop())
+                pos += 1
+            idx = np.array(out)
+        w = dist[idx]
+        with ctx.guard('pca', dict(long_request=j, n=len(idx))):
+            F = compute_features(w.astype([np.float32, np.float64][j % 2]))
+            if F.shape != (len(idx), nc, 3):
+                raise ValueError('compute_features returned shape %r for %d waveforms' % (F.shape, len(idx)))
+            Fd = np.zeros((2 * nsw, nc, 3))
+            for s in range(2 * nsw):
+                rows = F[idx == s]
+                if not np.array_equal(rows, np.broadcast_to(rows[0], rows.shape)):
+                    raise ValueError('identical waveforms of one request got different features')
+                Fd[s] = rows[0]
+            if not np.array_equal(Fd, np.rint(Fd)):
+                continue                                    # not exact unit vectors: not judged
+            recs.append(dict(id=rid0 + len(recs), kind='pca_rep', w=ints(dist), cnt=cnt, F=ints(Fd)))
+        if ctx.abort:
+            break
+    return recs
+
+
 def run(ctx):
     ctx.rule = ('S->C: every (stored columns, stored values, requested channels) triple with <= 2 stored '
                 'columns over 4 channels and <= 3 requested channels incl. an unknown one, replayed on the real '
@@ -194,10 +253,14 @@ def run(ctx):
     if ctx.abort:
         return
     recs += pca
-    ctx.part(kind='note', pca_records=len(pca), pca_discarded_not_exact=discarded)
+    long_pca = _pca_long_records(ctx, rng, 9 if ctx.quick else 60, len(recs) + 1)
+    if ctx.abort:
+        return
+    recs += long_pca
+    ctx.part(kind='note', pca_records=len(pca), pca_discarded_not_exact=discarded, pca_long_records=len(long_pca))
     if len(pca) < 10:
         raise MachineryError('PCA family: only %d exact cases (%d discarded)' % (len(pca), discarded))
-    ctx.nontrivial = sum(1 for r in recs if r['kind'] != 'pca' and (
+    ctx.nontrivial = sum(1 for r in recs if r['kind'] not in ('pca', 'pca_rep') and (
         r['rows'] or r['spikes'] != sorted(r['spikes']))) + len(pca)
     ctx.evaluations += len(recs)
     for chunk in [recs[a:a + 500] for a in range(0, len(recs), 500)]:
